@@ -10,8 +10,10 @@ Open Scope Z_scope.
    the value the struct denotes, and it never panics (the as-found code did: F04).
    Proved so far: the null struct (canon_m_null_partial), the size computation for every
    struct (CanonMStruct.canonicalStructSize_spec) and, end to end, every struct whose fields
-   are all default (CanonMStruct.canon_m_default_struct_partial).  Open: the heap-level
-   induction (allocation order = pre-order layout, pointer words = struct_word/list_word). *)
+   are all default (CanonMStruct.canon_m_default_struct_partial).  The heap-level
+   induction is in CanonMInd / CanonMList{P,R,B,C} / CanonMTop: CanonMTop.canon_m_correct_full proves this
+   statement (with a non-negative traversal budget) for every value; the ..._if corollaries below are
+   superseded by the unconditional CanonMTop.canon_m_layout_independent / _value_preserved / _idempotent. *)
 Definition canon_m_correct_statement : Prop :=
   forall fuel c fx m rl s v,
     all_cfixed fx -> cfg_strict c = true -> msg_ok m -> wf_ptr m s ->
